@@ -244,6 +244,9 @@ pub fn c01_block(b: usize, sink: &mut Sink, judge: &ServeJudge) {
         let ranges = range_values(len, &mut rng);
         for method in ["GET", "HEAD", "POST"] {
             for rv in &ranges {
+                if sink.stopped() {
+                    return;
+                }
                 for cond in &conds {
                     if method != "GET" && !cond.is_empty() && rng.chance(2, 3) {
                         continue;
@@ -399,6 +402,9 @@ impl Prop for C02 {
             values.push(Some(format!("bytes={}-{}", len - 70_000, len - 1)));
         }
         for v in values {
+            if sink.stopped() {
+                return;
+            }
             let mut c = ServeCase::get(ent.clone());
             c.cap = cap_for(&plan, thorough(&ctx));
             if let Some(v) = v {
@@ -704,11 +710,17 @@ impl Prop for C03 {
                 }
                 if n_specs == 1 {
                     for s in &specs {
+                        if sink.stopped() {
+                            return;
+                        }
                         run(l, format!("bytes={}", s).as_bytes(), sink);
                     }
                 } else {
                     let n = if thorough(&ctx) { 60_000 } else { 6_000 };
                     for _ in 0..n {
+                        if sink.stopped() {
+                            return;
+                        }
                         let mut v = String::from("bytes=");
                         for i in 0..n_specs {
                             if i > 0 {
@@ -920,6 +932,9 @@ impl Prop for C04 {
         let styles: &[DateStyle] = if big { &[DateStyle::Imf, DateStyle::Rfc850, DateStyle::Asctime] } else { &[DateStyle::Imf] };
         let ranges: &[Option<&[u8]>] = if big { &[None, Some(b"bytes=0-0")] } else { &[None] };
         for inm in &inms {
+            if sink.stopped() {
+                return;
+            }
             for d_ims in [None, Some(-1i64), Some(0), Some(1)] {
                 for d_ius in [None, Some(-1i64), Some(0), Some(1)] {
                     for (si, style) in styles.iter().enumerate() {
@@ -1126,6 +1141,9 @@ impl Prop for C05 {
         let ranges: [&[u8]; 7] = [b"bytes=1-3", b"bytes=0-0", b"bytes=-4", b"bytes=0-1, 5-6", b"bytes=0-0,2-2,4-4", b"bytes=5000-", b"bytes=0-"];
         for len in [1000u64, 12] {
             for ir in c05_if_range_values(etag, mtime) {
+                if sink.stopped() {
+                    return;
+                }
                 for range in ranges {
                     for method in ["GET", "HEAD"] {
                         let ent = EntSpec { len, etag: etag.map(|e| e.to_vec()), mtime, hdrs: vec![("content-type".into(), b"text/plain".to_vec())], plan: ChunkPlan::default(), fault: None };
@@ -1338,6 +1356,9 @@ pub fn c06_block(b: usize, sink: &mut Sink, judge: &ServeJudge) {
         starts.push(len - 2);
         starts.push(len / 2);
         for set_i in 0..n_sets {
+            if sink.stopped() {
+                return;
+            }
             let n = 2 + (set_i % 7) as usize;
             let mut ranges: Vec<(u64, u64)> = Vec::new();
             let budget = len / 2; // keep sum(len_i + 80) well below len so multipart is chosen
@@ -1551,6 +1572,9 @@ impl Prop for C07 {
         let tuples = c07_tuples();
         let t = if slow { &tuples[(b * 7919) % tuples.len()] } else { &tuples[b] };
         for c in c07_cases_for_tuple(t, slow) {
+            if sink.stopped() {
+                return;
+            }
             exec(&c, sink, &c07_judge);
         }
     }
@@ -2048,6 +2072,9 @@ impl Prop for C14 {
         let slow = sink.ctx.leg.slow();
         for first in c14_firsts() {
             for echo in 0u8..32 {
+                if sink.stopped() {
+                    return;
+                }
                 if slow && ![0, 1, 2, 8, 12, 16, 31].contains(&echo) {
                     continue;
                 }
@@ -2183,6 +2210,9 @@ impl Prop for C15 {
             }
             let conds = cond_combos(&ent, &mut rng, if thorough(&ctx) { 60 } else { 20 });
             for rv in range_values(len, &mut rng) {
+                if sink.stopped() {
+                    return;
+                }
                 for cond in &conds {
                     let mut c = ServeCase::get(ent.clone());
                     c.cap = 1 << 12;
@@ -2212,6 +2242,9 @@ impl Prop for C15 {
         } else {
             let n = if ctx.leg.slow() { 50 } else if thorough(&ctx) { 20_000 } else { 2_000 };
             for _ in 0..n {
+                if sink.stopped() {
+                    return;
+                }
                 let mut c = c13_case(&mut rng);
                 c.extra_polls = 0;
                 run(&c, sink);
